@@ -563,3 +563,93 @@ Lemma dropping_send_loses_notification :
 Proof.
   eexists. split; [reflexivity|]. simpl. repeat split. intros e He. destruct e; try reflexivity. congruence.
 Qed.
+
+(* ---------- frr-k8s path end to end ---------- *)
+Lemma option_eq_dec_cfg (a b : option cfg) : {a = b} + {a <> b}.
+Proof. decide equality. apply N.eq_dec. Qed.
+
+Lemma rkrun_app s l1 l2 :
+  rkrun s (l1 ++ l2) = match rkrun s l1 with Some s' => rkrun s' l2 | None => None end.
+Proof.
+  revert s; induction l1 as [|e l1 IH]; intros s; simpl; [reflexivity|].
+  destruct (rkstep s e); [apply IH|reflexivity].
+Qed.
+
+(* whenever the API differs from the desired configuration, work is pending somewhere *)
+Definition rkinv (s : rkst) : Prop :=
+  dkinv (rk_d s) /\
+  (rk_api s <> rk_desired s ->
+   rk_locked s = true \/ dk_pending (rk_d s) = true \/ rk_queue s = true).
+
+Lemma rkinv_step s e s' : rkinv s -> rkstep s e = Some s' -> rkinv s'.
+Proof.
+  intros [Id I] H. destruct e; cbn [rkstep] in H.
+  - destruct (rk_locked s); [discriminate|]. inversion H; subst; simpl. split; [assumption|]. auto.
+  - destruct (rk_locked s) eqn:L; [|discriminate]. destruct (dkstep false (rk_d s) DNotify) as [d|] eqn:E; [|discriminate].
+    inversion H; subst; simpl. split; [eapply dkinv_step; eauto|]. intros _. right; left.
+    simpl in E. destruct (dk_sending (rk_d s)); [discriminate|]. inversion E; reflexivity.
+  - destruct (dkstep false (rk_d s) DExpire) as [d|] eqn:E; [|discriminate]. inversion H; subst; simpl.
+    split; [eapply dkinv_step; eauto|]. intros Hne. destruct (I Hne) as [A|[A|A]]; auto. right; left.
+    simpl in E. destruct (dk_timer (rk_d s) && negb (dk_sending (rk_d s))); [|discriminate]. inversion E; subst; simpl. assumption.
+  - destruct (dkstep false (rk_d s) DDeliver) as [d|] eqn:E; [|discriminate]. inversion H; subst; simpl.
+    split; [eapply dkinv_step; eauto|]. auto.
+  - destruct (rk_queue s && negb (rk_locked s)); [|discriminate]. inversion H; subst; simpl. split; [assumption|]. intros X. exfalso. apply X. reflexivity.
+Qed.
+
+Lemma rk_reachable_inv l s : rkrun rkinit l = Some s -> rkinv s.
+Proof.
+  revert s. induction l as [|e l IH] using rev_ind; intros s H.
+  - inversion H; subst. split; [split; simpl; discriminate|]. simpl. congruence.
+  - rewrite rkrun_app in H. destruct (rkrun rkinit l) as [s0|] eqn:E; [|discriminate].
+    simpl in H. destruct (rkstep s0 e) eqn:E2; [|discriminate]. inversion H; subst.
+    eapply rkinv_step; [apply IH; reflexivity|exact E2].
+Qed.
+
+Lemma rk_desired_is_last l : forall s s', rkrun s l = Some s' -> rk_desired s' = last_written (rk_desired s) l.
+Proof.
+  induction l as [|e l IH]; intros s s' H; simpl in H.
+  - inversion H; reflexivity.
+  - destruct (rkstep s e) as [s1|] eqn:E; [|discriminate]. rewrite (IH _ _ H). destruct e; cbn [rkstep last_written] in *.
+    + destruct (rk_locked s); inversion E; subst; reflexivity.
+    + destruct (rk_locked s); [|discriminate]. destruct (dkstep false (rk_d s) DNotify); inversion E; subst; reflexivity.
+    + destruct (dkstep false (rk_d s) DExpire); inversion E; subst; reflexivity.
+    + destruct (dkstep false (rk_d s) DDeliver); inversion E; subst; reflexivity.
+    + destruct (rk_queue s && negb (rk_locked s)); inversion E; subst; reflexivity.
+Qed.
+
+(* latest wins: at quiescence the API holds the most recently submitted configuration *)
+Lemma rk_latest_wins l s : rkrun rkinit l = Some s -> rk_quiet s = true ->
+  rk_api s = last_written None l /\ rk_desired s = last_written None l.
+Proof.
+  intros H Q. pose proof (rk_desired_is_last _ _ _ H) as D. simpl in D. split; [|exact D]. rewrite <- D.
+  destruct (rk_reachable_inv _ _ H) as [[Ip _] I]. unfold rk_quiet in Q.
+  repeat (apply andb_true_iff in Q as [Q ?]). apply negb_true_iff in Q, H0, H1, H2.
+  destruct (option_eq_dec_cfg (rk_api s) (rk_desired s)) as [E|N]; [exact E|].
+  exfalso. destruct (I N) as [A|[A|A]]; try congruence. destruct (Ip A); congruence.
+Qed.
+
+(* progress: from any reachable state a finite continuation without a new write reaches quiescence *)
+Lemma rk_progress l s : rkrun rkinit l = Some s ->
+  exists cont s', length cont <= 5 /\ (forall e, In e cont -> forall c, e <> RWrite c) /\
+                  rkrun s cont = Some s' /\ rk_quiet s' = true.
+Proof.
+  intros H. destruct (rk_reachable_inv _ _ H) as [[Ip Is] _].
+  destruct s as [[t sd p o] des api lk q]. simpl in *.
+  assert (NW: forall (cont : list rkev), (forall e, In e cont -> e = RNotified \/ e = RExpire \/ e = RDeliver \/ e = RReconcile) ->
+              forall e, In e cont -> forall c, e <> RWrite c).
+  { intros cont Hc e He c. destruct (Hc e He) as [-> | [-> | [-> | ->]]]; discriminate. }
+  destruct sd.
+  - (* in the send: timer is false *)
+    rewrite (Is eq_refl) in *. destruct lk.
+    + exists [RDeliver; RNotified; RExpire; RDeliver; RReconcile]. eexists. split; [simpl; lia|].
+      split; [apply NW; simpl; intuition|]. split; reflexivity.
+    + exists [RDeliver; RReconcile]. eexists. split; [simpl; lia|]. split; [apply NW; simpl; intuition|]. split; reflexivity.
+  - destruct lk.
+    + exists [RNotified; RExpire; RDeliver; RReconcile]. eexists. split; [simpl; lia|].
+      split; [apply NW; simpl; intuition|]. split; reflexivity.
+    + destruct t.
+      * exists [RExpire; RDeliver; RReconcile]. eexists. split; [simpl; lia|]. split; [apply NW; simpl; intuition|]. split; reflexivity.
+      * destruct q.
+        -- exists [RReconcile]. eexists. split; [simpl; lia|]. split; [apply NW; simpl; intuition|]. split; reflexivity.
+        -- exists []. eexists. split; [simpl; lia|]. split; [intros e []|]. split; reflexivity.
+Qed.
